@@ -149,6 +149,9 @@ def end_run(sim: Sim) -> None:
     sim.escapes = _ESC["n"]
     if sys.gettrace() is not None:
         sys.settrace(None)
+    from . import simfs, simpool
+    simfs.cleanup_all()
+    simpool.uninstall()
 
 
 class allow_escape:
